@@ -347,8 +347,9 @@ public:
     template<class T2, class R = ResultType<T, T2>>
     base_array<R>& operator+=(const T2& rhs) noexcept {
         static_assert(std::is_same_v<T, R>, "the operation changes the type");
+        const T2 val = rhs;   //rhs may refer to an element of this array
         for (size_t i = 0; i < _vec.size(); ++i) {
-            _vec[i] += rhs;
+            _vec[i] += val;
         }
         return *this;
     }
@@ -356,8 +357,9 @@ public:
     template<class T2, class R = ResultType<T, T2>>
     base_array<R>& operator-=(const T2& rhs) noexcept {
         static_assert(std::is_same_v<T, R>, "the operation changes the type");
+        const T2 val = rhs;   //rhs may refer to an element of this array
         for (size_t i = 0; i < _vec.size(); ++i) {
-            _vec[i] -= rhs;
+            _vec[i] -= val;
         }
         return *this;
     }
@@ -365,8 +367,9 @@ public:
     template<class T2, class R = ResultType<T, T2>>
     base_array<R>& operator*=(const T2& rhs) noexcept {
         static_assert(std::is_same_v<T, R>, "the operation changes the type");
+        const T2 val = rhs;   //rhs may refer to an element of this array
         for (size_t i = 0; i < _vec.size(); ++i) {
-            _vec[i] *= rhs;
+            _vec[i] *= val;
         }
         return *this;
     }
@@ -374,8 +377,9 @@ public:
     template<class T2, class R = ResultType<T, T2>>
     base_array<R>& operator/=(const T2& rhs) noexcept {
         static_assert(std::is_same_v<T, R>, "the operation changes the type");
+        const T2 val = rhs;   //rhs may refer to an element of this array
         for (size_t i = 0; i < _vec.size(); ++i) {
-            _vec[i] /= rhs;
+            _vec[i] /= val;
         }
         return *this;
     }
